@@ -36,19 +36,20 @@ Definition spec_TYPE (t : str) (v : pyval) : Prop :=
   (t = s_BOOLEAN /\ exists b, v = PA (ABool b)) \/
   (t = s_LIST /\ exists l, v = PList l).
 
-(* RANGE: the value has a numeric reading x (an int, a float, or a string that float() parses -- oracle `ofl`;
-   never a bool) and lo <= x <= hi.  nan is <= nothing. *)
+(* RANGE: the value is not a bool, has a numeric reading x -- an int of ANY size read exactly, a float read as
+   itself, or a string that float() parses (oracle `ofl`; may be inf or nan) -- x is not nan, and lo <= x <= hi
+   (inclusive, exact comparison of rationals / infinities; nan is <= nothing, so a nan bound lets nothing in). *)
 Inductive fl_le : fl -> fl -> Prop :=
 | le_fin p q : (p <= q)%Q -> fl_le (FFin p) (FFin q)
 | le_ninf x : x <> FNan -> fl_le (FInf true) x
 | le_pinf x : x <> FNan -> fl_le x (FInf false).
 Definition numeric_reading (ofl : option fl) (v : pyval) (x : fl) : Prop :=
-  (exists z, v = PA (AInt z) /\ (Z.abs z <= two53)%Z /\ x = FFin (inject_Z z)) \/
-  (exists z, v = PA (AInt z) /\ (two53 < Z.abs z)%Z /\ ofl = Some x) \/
+  (exists z, v = PA (AInt z) /\ x = FFin (inject_Z z)) \/
   (exists r, v = PA (AFloat x r)) \/
   (exists s, v = PA (AStr s) /\ ofl = Some x).
 Definition spec_RANGE (ofl : option fl) (lo hi : fl) (v : pyval) : Prop :=
-  exists x, numeric_reading ofl v x /\ fl_le lo x /\ fl_le x hi.
+  (forall b, v <> PA (ABool b)) /\
+  exists x, numeric_reading ofl v x /\ x <> FNan /\ fl_le lo x /\ fl_le x hi.
 
 (* MIN/MAX_LENGTH: strings and lists only *)
 Definition has_length (v : pyval) (n : Z) : Prop :=
